@@ -51,23 +51,24 @@ theorem i2c_next_cases (cw : Nat) (s : I2cSt) (i : I2cIn) :
     let p := i2cPoked s i
     ((i2cNext cw s i).fsm = (i2cFsmStep p i).fsm ∧ (i2cNext cw s i).scl = (i2cFsmStep p i).scl ∧
      (i2cNext cw s i).sda = (i2cFsmStep p i).sda ∧ (i2cNext cw s i).bits = (i2cFsmStep p i).bits ∧
-     (i.run = true ∨ s.cnt = 0)) ∨
+     ((i.run = true ∧ s.fsm = .idle) ∨ s.cnt = 0)) ∨
     ((i2cNext cw s i).fsm = s.fsm ∧ (i2cNext cw s i).scl = s.scl ∧ (i2cNext cw s i).sda = s.sda ∧
-     (i2cNext cw s i).bits = s.bits ∧ i.run = false ∧ s.cnt ≠ 0) := by
+     (i2cNext cw s i).bits = s.bits ∧ s.cnt ≠ 0) := by
   intro p
   have hp := i2c_poked_fields s i
-  by_cases hce : (i.run || (i2cPoked s i).cnt == 0) = true
+  by_cases hce : ((i.run && (i2cPoked s i).fsm == .idle) || (i2cPoked s i).cnt == 0) = true
   · left
     simp only [i2cNext, hce, if_true]
     refine ⟨rfl, rfl, rfl, rfl, ?_⟩
-    rw [hp.2.2.2.2] at hce
+    rw [hp.2.2.2.2, hp.1] at hce
     simpa using hce
   · right
-    have hce' : (i.run || (i2cPoked s i).cnt == 0) = false := by simpa using hce
+    have hce' : ((i.run && (i2cPoked s i).fsm == .idle) || (i2cPoked s i).cnt == 0) = false := by simpa using hce
     simp only [i2cNext, hce', Bool.false_eq_true, if_false]
     refine ⟨hp.1, hp.2.1, hp.2.2.1, hp.2.2.2.1, ?_⟩
     rw [hp.2.2.2.2] at hce'
-    simpa using hce'
+    simp at hce'
+    exact hce'.2
 
 /-- Every clock edge of the machine is legal on the bus and keeps the invariant, for every input. -/
 theorem i2c_next_legal (cw : Nat) (s : I2cSt) (i : I2cIn) (h : I2cInv s) :
@@ -146,8 +147,8 @@ theorem i2c_fsm_step_bits (s : I2cSt) (i : I2cIn) (hb : s.bits < 16) : (i2cFsmSt
 /-- Cycle measure: remaining ticks times the tick period `l + 1`, plus the distance to the next tick. -/
 def i2cMu (l : Nat) (s : I2cSt) : Nat := if i2cRank s = 0 then 0 else (i2cRank s - 1) * (l + 1) + s.cnt + 1
 
-/-- Outside IDLE the measure strictly decreases in every cycle, for every input (extra command strobes only
-    advance the FSM earlier). -/
+/-- Outside IDLE the measure strictly decreases in every cycle, for every input (command strobes outside IDLE are
+    ignored). -/
 theorem i2c_mu_step (cw l : Nat) (s : I2cSt) (i : I2cIn) (hb : s.bits < 16) (hc : s.cnt ≤ l) (hl : i.load = l)
     (hn : s.fsm ≠ .idle) :
     i2cMu l (i2cNext cw s i) < i2cMu l s ∧ (i2cNext cw s i).cnt ≤ l ∧ (i2cNext cw s i).bits < 16 := by
@@ -164,7 +165,7 @@ theorem i2c_mu_step (cw l : Nat) (s : I2cSt) (i : I2cIn) (hb : s.bits < 16) (hc 
     by_cases h0 : s.cnt = 0 <;> simp [h0]
   have hcl : (i2cNext cw s i).cnt ≤ l := by rw [hcnt]; split <;> omega
   have hR0 : i2cRank s ≠ 0 := fun h => hn ((i2c_rank_zero_iff s).mp h)
-  rcases i2c_next_cases cw s i with ⟨e1, _, _, e4, hce⟩ | ⟨e1, _, _, e4, hrun, hc0⟩
+  rcases i2c_next_cases cw s i with ⟨e1, _, _, e4, hce⟩ | ⟨e1, _, _, e4, hc0⟩
   · have hr : i2cRank (i2cNext cw s i) + 1 = i2cRank s := by
       rw [i2cRank_congr _ _ e1 e4, hrs, hrp]
     refine ⟨?_, hcl, by rw [e4]; exact i2c_fsm_step_bits _ i hpb⟩
